@@ -214,6 +214,14 @@ def gen_matrix(rng: pyrandom.Random, cat=None, mmax=5, nmax=6, scale_exp=None):
             J[0], J[1] = J[1], J[0]
     elif cat == "nonconflict":
         J = [[abs(x) for x in r] for r in J]
+    elif cat == "const_col":
+        # one column (sometimes every column: identical rows) is CONSTANT and non-zero: its maximum and its
+        # minimum sit at the same index, every order statistic is tied
+        cols = range(n) if rng.random() < 0.3 else [rng.randrange(n)]
+        for j in cols:
+            v = rng.choice([-3, -2, 2, 3, 5])
+            for i in range(m):
+                J[i][j] = v
     elif cat == "few_values":
         # every entry from a three-letter non-zero alphabet: columns are full of exact ties (several equal
         # entries straddling the median), which order statistics must handle without double counting
